@@ -529,7 +529,7 @@ theorem pFuncName_acc (T) (ts : List Tok) : AR T tFN tt ts [] true (pFuncName ts
   split_run <;> agrind
 grind_pattern pFuncName_acc => Anchor T, pFuncName ts
 /-- the special function names `CAST` / `EXTRACT` / `IF` are grammar words -/
-theorem pFuncName_kw (ts : List Tok) (n : String) (r : List Tok) (h : pFuncName ts = .ok ((none, n), r)) (hk : isKW (up n) = true) : KwSeg ts r := by
+theorem pFuncName_kw0 (ts : List Tok) (n : String) (r : List Tok) (h : pFuncName ts = .ok ((none, n), r)) (hk : isKW (up n) = true) : KwSeg ts r := by
   unfold pFuncName at h
   split at h
   · split at h
@@ -547,7 +547,12 @@ theorem pFuncName_kw (ts : List Tok) (n : String) (r : List Tok) (h : pFuncName 
       exact kwSeg_cons (splitName_kw _ _ hx hk)
     · simp at h
   · simp at h
-grind_pattern pFuncName_kw => pFuncName ts, Except.ok ((none, n), r), isKW (up n)
+theorem pFuncName_kw (ts : List Tok) (sch : Option String) (n : String) (r : List Tok) (h : pFuncName ts = .ok ((sch, n), r))
+    (hs : sch.isNone = true) (hk : isKW (up n) = true) : KwSeg ts r := by
+  cases sch with
+  | none => exact pFuncName_kw0 ts n r h hk
+  | some a => simp at hs
+grind_pattern pFuncName_kw => pFuncName ts, Except.ok ((sch, n), r), Option.isNone sch
 theorem pAlias_acc (T) (ts : List Tok) : AR T tOS tt ts [] true (pAlias ts) := by
   have hA : Anchor T := trivial
   have hK0 : kwOk "AS" = true := by decide
@@ -574,7 +579,7 @@ theorem pRowItem_acc (T) (ts : List Tok) : AR T tRow tt ts [] true (pRowItem ts)
   split_run <;> agrind
 grind_pattern pRowItem_acc => Anchor T, pRowItem ts
 def tRows (p : RowItem × RowItem) : List String := tRow p.1 ++ tRow p.2
-@[grind =] theorem tRows_def (a b) : tRows (a, b) = tRow a ++ tRow b := rfl
+@[grind =] theorem tRows_def (p) : tRows p = tRow p.1 ++ tRow p.2 := rfl
 theorem pWindowRow_acc (T) (ts : List Tok) : AR T tRows tt ts [] true (pWindowRow ts) := by
   have hA : Anchor T := trivial
   have hS0 : allKw ["ROWS", "BETWEEN"] = true := by decide
@@ -637,5 +642,69 @@ theorem castTail_acc (T) (e : Expr) (ts : List Tok) : ARV T tE FullE ts (tE e) (
   simp only at h
   split_run <;> agrind
 grind_pattern castTail_acc => Anchor T, castTail e ts
+
+
+theorem kwOk_isKW (k : String) (h : kwOk k = true) : isKW k = true := by
+  simp only [kwOk, Bool.and_eq_true] at h; exact h.1
+grind_pattern kwOk_isKW => kwOk k
+theorem isNone_eq {α : Type} (o : Option α) (h : o.isNone = true) : o = none := by cases o <;> simp_all
+grind_pattern isNone_eq => o.isNone
+
+/-! ### the operand stack of the compute loop -/
+theorem full_collapse : ∀ st top, FullE (collapse st top) = (FullSt st && FullE top) := by
+  intro st
+  induction st with
+  | nil => intro top; simp [collapse, FullSt]
+  | cons p st ih =>
+    intro top; obtain ⟨l, o, k⟩ := p
+    simp only [collapse, ih, FullSt, FullE]
+    cases FullE l <;> cases FullSt st <;> cases FullE top <;> rfl
+grind_pattern full_collapse => FullE (collapse st top)
+theorem full_reduceWhile (lvl : Nat) : ∀ st top,
+    (FullSt (reduceWhile lvl st top).1 && FullE (reduceWhile lvl st top).2) = (FullSt st && FullE top) := by
+  intro st
+  induction st with
+  | nil => intro top; simp [reduceWhile]
+  | cons p st ih =>
+    intro top; obtain ⟨l, o, k⟩ := p
+    simp only [reduceWhile]
+    split
+    · rw [ih]; simp only [FullSt, FullE]; cases FullE l <;> cases FullSt st <;> cases FullE top <;> rfl
+    · rfl
+theorem full_reduceWhile2 (lvl : Nat) (st top st' top') (h : reduceWhile lvl st top = (st', top')) :
+    (FullSt st' && FullE top') = (FullSt st && FullE top) := by
+  have := full_reduceWhile lvl st top; rw [h] at this; exact this
+grind_pattern full_reduceWhile2 => reduceWhile lvl st top, (st', top')
+
+/-! ### nothing is parsed from an empty cursor -/
+theorem pCompute_nil (d : Gen.D) (n : Nat) (cs : List Tok) (v : Expr) (r : List Tok) (h : pCompute d n cs = .ok (v, r)) : cs ≠ [] := by
+  rintro rfl
+  rcases n with _ | _ | _ | n <;> simp [pCompute, pUnary, pElement] at h
+grind_pattern pCompute_nil => pCompute d n cs, Except.ok (v, r)
+theorem pSelectStmt_nil (d : Gen.D) (n : Nat) (w : Option (List WithTable)) (cs : List Tok) (v : Query) (r : List Tok)
+    (h : pSelectStmt d n w cs = .ok (v, r)) : cs ≠ [] := by
+  rintro rfl
+  cases w <;> rcases n with _ | _ | _ | _ | n <;>
+    simp [pSelectStmt, pWith, pSingle, pSelectBody, matchSeq, searchStrUp, searchMark] at h
+grind_pattern pSelectStmt_nil => pSelectStmt d n w cs, Except.ok (v, r)
+
+/-! ### unions -/
+theorem fullQ_unionS (w : List WithTable) (s : Select) (us : List (String × Select)) :
+    FullQ (.union (some w) (setWiths s) (us.map fun p => (p.1, setWiths p.2))) = (FullWTs w && (FullSel (setWiths s) && FullUnS us)) := by
+  simp [FullQ, FullUnS, FullOWTs]
+theorem tQ_unionS (w : List WithTable) (s : Select) (us : List (String × Select)) :
+    tQ (.union (some w) (setWiths s) (us.map fun p => (p.1, setWiths p.2))) = tWTs w ++ (tSel (setWiths s) ++ tUnS us) := by
+  simp [tQ_union, tUnS, tOWTs]
+theorem sub_tSel_w (T : List String) (s : Select) : Sub (tSel s) T = (Sub (tOWTs (withsOf s)) T ∧ Sub (tSel (setWiths s)) T) := by
+  rw [tSel_split s, sub_append]
+grind_pattern sub_tSel_w => withsOf s, Sub (tSel s) T
+theorem fullSel_w (s : Select) : FullSel s = (FullOWTs (withsOf s) && FullSel (setWiths s)) := FullSel_split s
+grind_pattern fullSel_w => withsOf s, FullSel s
+
+theorem headChildren_ok (ts cs : List Tok) (h : headChildren ts = .ok cs) : ∃ g r, ts = g :: r ∧ cs = g.children := by
+  cases ts with
+  | nil => simp [headChildren] at h
+  | cons g r => simp [headChildren] at h; exact ⟨g, r, rfl, h.symm⟩
+grind_pattern headChildren_ok => headChildren ts, Except.ok cs
 
 end PA
